@@ -70,17 +70,31 @@ def make_classes(e, N, api_mask, kinds):
             return f"/* api of K{self.i} */"
 
     classes = [(WithApi if api_mask[i] else Base)(i) for i in range(N)]
+    if kinds.get("shadow") is not None:
+        # a second class with the NAME of K_shadow (an override passed later in the list: "the last one
+        # is used") with its own solver-variable edges, stored as row N of the edge matrix
+        sh = kinds["shadow"]
+        for j in range(N):
+            if j != sh:
+                edge[(N, j)] = e.sym(f"e{N}{j}", 0, kinds["max_kind"])
+        shadow = WithApi(N)
+        shadow.__name__ = f"K{sh}"
+        shadow.is_shadow = True
+        classes.append(shadow)
     return classes, seen, kind
 
 
 def harness(cfg):
     N, roots, api_mask, kinds = cfg
-    name = f"sort_classes[N={N},roots={roots},api={''.join(map(str, api_mask))},kinds={kinds['max_kind']}{'s' if kinds.get('self_loops') else ''}]"
+    name = f"sort_classes[N={N},roots={roots},api={''.join(map(str, api_mask))},kinds={kinds['max_kind']}{'s' if kinds.get('self_loops') else ''}{',override of K%d' % kinds['shadow'] if kinds.get('shadow') is not None else ''}]"
     e = Engine(name, max_paths=200000, max_decisions=2000, max_cex=6)
 
     def body(e):
         classes, seen, kind = make_classes(e, N, api_mask, kinds)
         rootlist = [classes[r] for r in roots]
+        sh = kinds.get("shadow")
+        if sh is not None:
+            rootlist.append(classes[N])
         exc = None
         res = None
         try:
@@ -95,9 +109,22 @@ def harness(cfg):
         reach = set(roots)
         frontier = list(roots)
         adj = {}
+        row = lambda i: N if (sh is not None and i == sh) else i  # last-wins: the override's edges count
+        if sh is not None:
+            reach.add(sh)
+            frontier.append(sh)
         while frontier:
             i = frontier.pop()
-            adj[i] = [j for j in range(N) if kind(i, j) in (1, 2)]
+            if i in adj:
+                continue
+            adj[i] = [j for j in range(N) if kind(row(i), j) in (1, 2)]
+            if sh is not None and i == sh and sh in roots:
+                # the overridden class was scanned too (it is in the list): what it depends on is in
+                # the build as well, although its own edges are replaced by the override's
+                for j in range(N):
+                    if kind(sh, j) in (1, 2) and j not in reach:
+                        reach.add(j)
+                        frontier.append(j)
             for j in adj[i]:
                 if j not in reach:
                     reach.add(j)
@@ -118,7 +145,11 @@ def harness(cfg):
                 names = [c.__name__ for c in res]
                 want = sorted(f"K{i}" for i in reach if api_mask[i])
                 e.prove(z3.BoolVal(len(names) == len(set(names))), "every class API is emitted exactly once (no duplicates)", det)
-                e.prove(z3.BoolVal(sorted(set(names)) == want), "exactly the reachable classes that have an API are emitted", det)
+                if sh is None:
+                    e.prove(z3.BoolVal(sorted(set(names)) == want), "exactly the reachable classes that have an API are emitted", det)
+                else:
+                    e.prove(z3.BoolVal(set(want) <= set(names)), "with a same-named override later in the list: everything the override depends on is emitted", det)
+                    e.prove(z3.BoolVal(any(c is classes[N] for c in res) and not any(c is classes[sh] for c in res)), "with a same-named override later in the list: the last class of that name is the one emitted", det)
                 pos = {n: k for k, n in enumerate(names)}
                 ok = True
                 for i in reach:
@@ -159,7 +190,11 @@ def graph_of(m, N, kinds, roots, api_mask):
             v = m.eval(z3.Int(f"e{i}{j}"), model_completion=True).as_long() if (i != j or kinds.get("self_loops")) else 0
             if v:
                 g[f"{i}>{j}"] = v
-    return {"N": N, "edges": g, "roots": list(roots), "api": list(api_mask)}
+    out = {"N": N, "edges": g, "roots": list(roots), "api": list(api_mask)}
+    if kinds.get("shadow") is not None:
+        out["shadow"] = kinds["shadow"]
+        out["shadow_edges"] = {str(j): m.eval(z3.Int(f"e{N}{j}"), model_completion=True).as_long() for j in range(N) if j != kinds["shadow"]}
+    return out
 
 
 REPLAY = '''#!/usr/bin/env python
@@ -216,7 +251,57 @@ def build(i, stack=()):
     classes[i] = type(f"K{{i}}", (xo.Struct,), fields)
     return classes[i]
 for i in range(N): build(i)
+SH = CASE.get("shadow")
+extra_roots = []
+if SH is not None:
+    # the override: same name as K_SH, its own dependencies
+    sadj = [(int(j), k) for j, k in CASE["shadow_edges"].items() if k]
+    fields = {{}}; deps = []
+    for j, k in sadj:
+        if k == 1 and api[j]: fields[f"g{{j}}"] = classes[j]
+        else: deps.append(classes[j])
+    fields["_depends_on"] = [d for d in deps if hasattr(d, "_gen_c_api")]
+    old = classes[SH]
+    new = type(f"K{{SH}}", (xo.Struct,), fields)
+    extra_roots = [new]
+    adj_last = dict(adj); adj_last[SH] = sadj
 def fail(msg): print("VIOLATED:", msg, "| case", CASE); sys.exit(1)
+if SH is not None:
+    # nodes in the build: reachable through the last-wins edges, plus what the overridden class pulled in
+    disc = set(); st = list(roots) + [SH]
+    while st:
+        u = st.pop()
+        if u in disc: continue
+        disc.add(u); st += [v for v, _ in adj_last[u]]
+        if u == SH and SH in roots: st += [v for v, _ in adj[SH]]
+    color = {{}}
+    def dfs2(u):
+        color[u] = 1
+        for v, _ in adj_last[u]:
+            if color.get(v) == 1 or (color.get(v) is None and dfs2(v)): return True
+        color[u] = 2; return False
+    cyc2 = any(color.get(u) is None and dfs2(u) for u in disc)
+    try:
+        res = sort_classes([classes[r] for r in roots] + extra_roots)
+    except ValueError as ex:
+        if not cyc2: fail(f"acyclic graph rejected: {{ex}}")
+        print("cycle reported as error"); sys.exit(0)
+    if cyc2: fail("dependency cycle not reported")
+    names = [c.__name__ for c in res]
+    if len(names) != len(set(names)): fail(f"a class is emitted more than once: {{names}}")
+    if not any(c is extra_roots[0] for c in res): fail("the last class of the duplicated name is not the one emitted")
+    need = set(); st = [SH] + list(roots)
+    while st:
+        u = st.pop()
+        if u in need: continue
+        need.add(u); st += [v for v, _ in adj_last[u]]
+    missing = [f"K{{i}}" for i in need if api[i] and f"K{{i}}" not in names]
+    if missing: fail(f"dependencies of the override are not emitted: {{missing}} (emitted {{names}})")
+    try:
+        ctx = xo.ContextCpu(); ctx.add_kernels(kernels={{}}, extra_classes=[classes[r] for r in roots] + extra_roots)
+    except Exception as ex:
+        fail(f"the emitted source does not build: {{type(ex).__name__}}: {{str(ex)[:200]}}")
+    print("property holds on this case"); sys.exit(0)
 try:
     res = sort_classes([classes[r] for r in roots])
 except ValueError as ex:
@@ -255,7 +340,13 @@ def main(pid):
         jobs.append((N, (0,), (1, 1, 1), {"max_kind": 1, "self_loops": True}))
         jobs.append((2, (0,), (1, 1), {"max_kind": 2, "self_loops": True}))
         jobs.append((2, (1, 0), (1, 1), {"max_kind": 2}))
+        jobs.append((3, (0,), (1, 1, 1), {"max_kind": 1, "shadow": 0}))
+        jobs.append((3, (0, 1), (1, 1, 1), {"max_kind": 1, "shadow": 1}))
     else:
+        jobs.append((3, (0,), (1, 1, 1), {"max_kind": 2, "shadow": 0}))
+        jobs.append((3, (0, 1), (1, 1, 1), {"max_kind": 2, "shadow": 1}))
+        jobs.append((3, (1, 0), (1, 1, 1), {"max_kind": 1, "shadow": 0}))
+        jobs.append((4, (0,), (1, 1, 1, 1), {"max_kind": 1, "shadow": 0}))
         for N in (2, 3):
             for r in range(1, N + 1):
                 for roots in itertools.permutations(range(N), r):
